@@ -47,6 +47,21 @@ Definition pts_ok (pts : list fpt) : bool :=
 Definition ymax (pts : list fpt) : float :=
   fold_left (fun a p => if (a <? PrimFloat.abs (snd p))%float then PrimFloat.abs (snd p) else a) pts 0%float.
 
+(* conditioning of the end-point line y = m x + b evaluated in absolute coordinates (what compute_global_rmse does): the rounding
+   error of m*x + b is about eps * |m| * max|x| <= eps * (2 ymax / min gap) * max|x|.  Tolerance comparisons of RMSE-level
+   quantities against the closed formulas allow for it (a curve carried by a large x offset — time-stamps — loses that many
+   digits in the implementation AND in the formula; demanding more was a false alarm of this judge, found on the `offset` family). *)
+Definition xcond (pts : list fpt) : float :=
+  let xmag := fold_left (fun a p => if (a <? PrimFloat.abs (fst p))%float then PrimFloat.abs (fst p) else a) pts 0%float in
+  let gaps := (fix go (l : list fpt) : float :=
+                 match l with
+                 | p :: ((q :: _) as l') => let g := PrimFloat.abs (fst q - fst p)%float in
+                                            let r := go l' in if (g <? r)%float then g else r
+                 | _ => infinity
+                 end) pts in
+  (xmag / gaps)%float.
+Definition cond_atol (pts : list fpt) : float := (0x1p-30 * ymax pts + 0x1p-47 * ymax pts * xcond pts)%float.
+
 Definition first_false (l : list bool) : Z :=
   (fix go (l : list bool) (k : Z) : Z :=
      match l with [] => 0%Z | b :: l' => if b then go l' (k + 1)%Z else k end) l 1%Z.
@@ -92,7 +107,7 @@ Definition judge (c : case) : Z :=
       if negb (forallb (has_key sqtab) (flat_map segments hist)) then 400%Z else
       let sqerr := oracle sqtab in
       let run := @rmse_shared FloatNum n sqerr [] hist in
-      let atol := (0x1p-30 * ymax pts)%float in
+      let atol := cond_atol pts in
       let a :=
         if negb (list_all2 (fun r s => opt_same (Some (fst r)) s) run shared) then 1%Z
         else if negb (list_all2 (fun r d => tab_same (snd r) d) run dicts) then 1%Z
